@@ -52,6 +52,12 @@ var FieldLists = func() [][]hpack.HeaderField {
 		7: {{Name: "x-d", Value: "4"}, {Name: "x-b", Value: "2"}, {Name: "x-e", Value: "5"}, {Name: "x-c", Value: "a-rather-long-value-that-is-indexed-0123456789"}},
 		8: {{Name: ":method", Value: "POST"}, {Name: ":path", Value: "/svc/Method"}, {Name: "content-type", Value: "application/grpc"}, {Name: "x-mid", Value: mid}},
 		9: {{Name: "x-e", Value: "5"}, {Name: "x-d", Value: "4"}},
+		// repeated names, an empty value, a never-indexed (sensitive) field, a static-table name with a new value
+		10: {{Name: ":authority", Value: "example.test"}, {Name: "cookie", Value: "a=1"}, {Name: "cookie", Value: "b=2"},
+			{Name: "x-empty", Value: ""}, {Name: "authorization", Value: "secret-0123456789", Sensitive: true}, {Name: "x-a", Value: "1"}},
+		// many small indexable fields: churns a small dynamic table
+		11: {{Name: "x-f1", Value: "v1"}, {Name: "x-f2", Value: "v2"}, {Name: "x-f3", Value: "v3"}, {Name: "x-f4", Value: "v4"},
+			{Name: "x-f5", Value: "v5"}, {Name: "x-f6", Value: "v6"}, {Name: "x-b", Value: "2"}, {Name: "x-f1", Value: "v1"}},
 	}
 }()
 
@@ -387,7 +393,35 @@ func (e *Endpoint) closeBlock() string {
 	if v, ok := sizeUpdates(e.openFrag); ok {
 		e.sigTab = v
 	}
-	fs, err := e.dec.DecodeFull(e.openFrag)
+	// The pinned hpack.Decoder rejects a second dynamic table size update at the start of a block
+	// when its table is not empty, although RFC 7541 4.2 allows "smallest, then final". This
+	// endpoint applies the leading updates itself (same effect, same limit check) and decodes the rest.
+	frag := e.openFrag
+	var err error
+	for len(frag) > 0 && frag[0]&0xe0 == 0x20 && err == nil {
+		v, n := uint64(frag[0]&0x1f), 1
+		if v == 31 {
+			shift := uint(0)
+			for n < len(frag) {
+				c := frag[n]
+				n++
+				v += uint64(c&0x7f) << shift
+				shift += 7
+				if c&0x80 == 0 {
+					break
+				}
+			}
+		}
+		if v > uint64(e.tabBound()) {
+			err = fmt.Errorf("dynamic table size update too large")
+		}
+		e.dec.SetMaxDynamicTableSize(uint32(v))
+		frag = frag[n:]
+	}
+	var fs []hpack.HeaderField
+	if err == nil {
+		fs, err = e.dec.DecodeFull(frag)
+	}
 	fid := 999
 	if err == nil {
 		fid = fidOf(fs)
